@@ -605,7 +605,7 @@ func checkC02(c *Ctx) {
 	for i, h := range psCorpus() {
 		cases = append(cases, hcase{fmt.Sprintf("corpus#%d", i), 1, h, i})
 	}
-	nrand := c.Pick(600, 8000)
+	nrand := c.Pick(600, 40000)
 	for i := 0; i < nrand; i++ {
 		r := c.CaseRng("hist", i)
 		nconn := 1 + r.Intn(2)
